@@ -257,12 +257,24 @@ def main(argv=None):
                    repo=repo, kind=f['kind'])
         json.dump(rec, open(path, 'w'), indent=1, default=str)
         violations.append((f, path, witness))
-    # native failures whose contract verified: engine/contract inconsistency unless it is a bounded stand-in
+    # a failing input found natively for a contract whose obligations were all discharged: the real code violates the
+    # executable contract on a concrete input.  Reported as a violation with that witness (found by the bounded native
+    # search, not by the proof); it also means the discharged obligations did not cover the failing behaviour.
     proved_contracts = {r['contract'] for r in results if not r['error']
                         and all(o['status'] in ('proved', 'sat') for o in r['obligations'])}
+    reported = {f.get('contract') for f, _, _ in violations}
     for nf in nat_fail:
-        if nf.get('contract') in proved_contracts and not nf.get('bounded'):
-            checker_errors.append('native run contradicts a discharged contract: %s %s' % (nf.get('contract'), str(nf.get('witness'))[:200]))
+        if nf.get('contract') in reported or nf.get('contract') in {k.get('contract') for k in kf if k['id'] in known_seen}:
+            continue
+        path = os.path.join(ROOT, 'replays', pid, san('native_' + str(nf.get('contract'))) + '.json')
+        rec = dict(property=pid, obligation='%s/native/%s' % (pid, nf.get('contract')), contract=nf.get('contract'), status='refuted',
+                   desc='executable contract fails on the real code for a concrete input (bounded native search)',
+                   witness=nf.get('witness'), detail=nf.get('detail', ''), repo=repo, kind='native',
+                   note='all deductive obligations of this contract were discharged' if nf.get('contract') in proved_contracts else '')
+        json.dump(rec, open(path, 'w'), indent=1, default=str)
+        f = dict(id=rec['obligation'], contract=nf.get('contract'), status='refuted', desc=rec['desc'] + ': ' + str(nf.get('detail', ''))[:200], kind='native')
+        violations.append((f, path, nf.get('witness')))
+        reported.add(nf.get('contract'))
     wall = time.time() - t0
     assumptions = list(P.assumptions)
     for t in trusted:
